@@ -189,6 +189,7 @@ func runC03(c *eng.Ctx) {
 	p := c.P
 	compactionStreamFollowsTheOutputFile(c)
 	scannerAdvanceIsAllOrNothing(c)
+	downSamplingEmitsEverySlot(c)
 	compactionOutputClaimedUntilInstalled(c)
 
 	// ---- 1/2/3. one atomic install; both input levels ---------------------------------------------------------------------
